@@ -79,6 +79,7 @@ def run(ctx):
     y1(ctx, F, D)
     y2(ctx, F, D)
     y3(ctx, F)
+    y3_show(ctx, F)
     y4(ctx, F, D)
     y5(ctx, F)
 
@@ -268,6 +269,24 @@ def y3(ctx, F):
     legend = site(lambda w: w[1] and "a b c d e f g h" in w[1] and not loop_binders(w[3]))
     ctx.check("C20.Y3", "legend-a-to-h", len(legend) == 1, fn=P, file=fn["file"],
               what="the file legend `a b c d e f g h` must be printed once under the diagram", found=[w[1] for w in ws if w[1] and "a b" in w[1]])
+
+
+def y3_show(ctx, F):
+    fn = F.fn("uci::command_show")
+    ws, sym = fmt_writes(fn, F)
+    ok = len(ws) == 1 and ws[0][2] and ws[0][2][0][0] == "new_display"
+    src = None
+    if ok:
+        g = [x[1] for x in ws[0][3] if x[0] == "if" and x[2] is True and x[1][0] == "let"]
+        arg = ws[0][2][0][1]
+        ok = len(g) == 1 and g[0][3] and arg == ("var", g[0][3][0]) and "data.current_game" in hir.fmt(g[0][2], 120)
+        src = hir.fmt(g[0][2], 120) if g else None
+    ctx.check("C20.Y3", "show-prints-the-session's-current-game", ok, fn=fn["path"], file=fn["file"],
+              what="`show` must print the Display of the session's current game", found=src)
+    talk = F.fn("uci::uci_talk")
+    sites = hir.calls(talk["hir"]["body"], "uci::command_show")
+    ctx.check("C20.Y3", "show-command-dispatches-to-command_show", len(sites) == 1, fn=talk["path"], file=talk["file"], nontrivial=False,
+              what="the `show` command must call command_show", found=len(sites))
 
 
 def _contains(t, sub):
